@@ -217,6 +217,13 @@ def same_class_helper(keep=()):
     return want
 
 
+def same_file_detail_helper():
+    """policy: free functions of a `detail` namespace defined in the same file as the caller (a long function split into parts)"""
+    def want(f, call, g):
+        return not g.cls and g.file == f.file and '::detail::' in g.q and g.q != f.q
+    return want
+
+
 def expand(f, want, limit=12):
     """copy of f with the accepted helper calls inlined (transitively, at most `limit` expansions); f itself when nothing applies"""
     u = f.unit
